@@ -281,6 +281,7 @@ func (c02) Execute(sc core.Script, keep bool) *core.Result {
 		res.Steps = log.Steps()
 		res.LogLines = log.Lines
 	}()
+	sm2Canon()
 	priv, e := unhx(s.Priv), unhx(s.E)
 	viol := func(class, role, param, detail string) {
 		res.Violation = &core.Violation{Class: class, Op: "SignHashed", Role: role, Param: param, Detail: detail}
